@@ -22,6 +22,8 @@ fn gen_def(p: &mut Pool) -> OptSpec {
         if p.rng.chance(1, 5) {
             fields.push(p.adjacent_group_nested());
             nested = true;
+        } else if p.rng.chance(1, 6) {
+            fields.push(p.adjacent_group_in_choice());
         } else {
             fields.push(p.adjacent_group());
         }
